@@ -18,7 +18,7 @@ REG = {
          "model is bound through Locate's return value only, disagreement there is reported as model drift, not as a violation.",
     technique="TLA+ state machine of the index-search cache (TLC exhaustive) + per-transition replay + trace validation of recorded call histories"),
  "C19": dict(
-    engine="spec/Helpers.tla, MC_Helpers.tla (+5 cfgs), Trace_Helpers.tla, Rat.tla; harness/c19.cpp",
+    engine="spec/Helpers.tla, WDCore.tla, proofs/WD_Proof.tla (TLAPS), MC_Helpers.tla (+5 cfgs), Trace_Helpers.tla, Rat.tla; harness/c19.cpp",
     design_ref="DESIGN.md §4.19",
     text="TLC proves on the specification that the quotient/remainder algorithm of Workload_Distribution refines the property-level "
          "spec on the complete 128x1024 grid, that the upper_bound search refines 'an index of a nearest element' for every sorted list "
@@ -30,9 +30,9 @@ REG = {
          "[-12,12]^2 x 1..13 exported (quick), random/full [-40,40]^2 x 1..40 recorded; lists <=5 over {0,1,2}; data sets <=5 over -2..2 and "
          "one pseudo-random set of length 1..200. Real-valued Linear/Log_Space and statistics laws are accepted through integer-quantised "
          "residuals computed by the recorder (units of 64 eps x data scale). Trusted: TLC, recorder projection code.",
-    technique="TLA+ specification of each helper (algorithm refines property, TLC exhaustive), replay of exported exact cases, trace validation of recorded results"),
+    technique="TLA+ specification of each helper (algorithm refines property, TLC exhaustive; Workload_Distribution additionally proved for all arguments with TLAPS), replay of exported exact cases, trace validation of recorded results"),
  "C04": dict(
-    engine="spec/LinAlg.tla, MC_LinAlg.tla, Trace_LinAlg.tla; harness/c04.cpp",
+    engine="spec/LinAlg.tla, MC_LinAlg.tla, Trace_LinAlg.tla, Shape.tla, MC_Shape.tla, Trace_Shape.tla; harness/c04.cpp, harness/shape.cpp",
     design_ref="DESIGN.md §4.4",
     text="The specification defines every Vector/Matrix operation over the integers and when it is defined; TLC checks the algebraic "
          "laws the statement lists on those definitions for all shape triples <=4 (5 thorough). Every operation, in every spelling "
@@ -42,9 +42,9 @@ REG = {
          "equals the definition exactly, and a rejection must be an exit with diagnostic, never a memory error.",
     note="Entries are small integers times 2^k (exact in double): rounding behaviour of sums of general reals is not exercised. "
          "Norm() is compared through round(Norm()^2). Trusted: TLC, the recorder's exact rescaling, fork-based outcome classification.",
-    technique="TLA+ definitions of the algebra (laws checked by TLC) + trace validation of every operation/spelling/shape recorded from the library"),
+    technique="TLA+ definitions of the algebra (laws checked by TLC) + trace validation of every operation/spelling/shape recorded from the library; TLA+ state machine of the objects under size-changing calls (Shape.tla): TLC-generated behaviours replayed in the real objects, each (pre, action, post) trace-validated"),
  "C10": dict(
-    engine="spec/Guards.tla, MC_Guards.tla, Trace_Guards.tla; harness/c10.cpp",
+    engine="spec/Guards.tla, MC_Guards.tla, Trace_Guards.tla, Shape.tla, MC_Shape.tla, Trace_Shape.tla; harness/c10.cpp, harness/shape.cpp",
     design_ref="DESIGN.md §4.10, Appendix C",
     text="Guards.tla is a decision table: 1562 requests over 51 guarded entry points with abstract arguments on both sides of every "
          "guard, and Meaningful(request) written from the mathematics. TLC enumerates the table, checks that every entry point is "
@@ -54,7 +54,7 @@ REG = {
     note="quick: g++ -D_GLIBCXX_ASSERTIONS build; thorough: additionally clang++ -fsanitize=address,undefined. Requests outside the "
          "enumerated abstract domains are not decided. Rows where the statement leaves the outcome open (two-point axes of the 2D "
          "table, cdf in {0,1} for Inv_CDF_Poisson, Inv_Erf(1), envelope exceeded by <1%) accept either outcome but never a memory error.",
-    technique="TLA+ decision-table specification enumerated by TLC; every request executed in a child process and its outcome trace-validated"),
+    technique="TLA+ decision-table specification enumerated by TLC; every request executed in a child process and its outcome trace-validated; object histories from the TLA+ state machine Shape.tla (behaviours generated by TLC, replayed in the real objects, probes of every guard on the objects as they are now)"),
  "C01": dict(
     engine="spec/Steffen.tla, MC_Steffen.tla, Bilinear.tla, MC_Bilinear.tla, Trace_Interp.tla, Rat.tla; harness/interp.cpp",
     design_ref="DESIGN.md §4.1",
